@@ -2,6 +2,7 @@ package checks
 
 import (
 	"fmt"
+	"go/token"
 	"go/types"
 	"os"
 	"sort"
@@ -468,6 +469,7 @@ func runC08(c *Ctx) {
 	R.Rules["S.time-digits"] = "the time of a location report is rendered by utils.BCD2Time, which moves the BCD digits into the text without interpreting them (it calls nothing from time / strconv): the year is 20YY for every two-digit YY, and values that are not calendar dates are shown as they are"
 	c.bcdTimeHelpersRule("S.time-digits", []string{"BCD2Time"})
 	R.Require("S.time-digits", 1, "")
+	c.tyrePressureRule()
 	c.narrowArith(func(fn *ssa.Function) bool {
 		f := c.P.RelPos(fn.Pos())
 		return strings.Contains(f, "0x0200") || strings.Contains(f, "0x0704")
@@ -476,4 +478,192 @@ func runC08(c *Ctx) {
 		"every alarm, status, extended-signal, IO and 苏标 vehicle-status flag is set exactly under a test of its own bit (semantic extraction, idiom independent); " +
 		"for each standard additional-information ID the accepted lengths equal the admissible ones and each value is read at the standard's offset inside the item; unknown IDs are kept verbatim. " +
 		"Not decided: BCD digit rendering, 'false exactly when the bit is clear' on a reused receiver (C03's clause), the two-bit cargo field."
+}
+
+// tyrePressureRule: additional-information item 0x05 carries one pressure byte per tyre; the decoder keeps the
+// non-zero ones under the tyre's index. Decided structurally on the decoding loop: (1) the loop leaves only at its
+// head (no early exit: a zero byte does not end the scan), (2) the map update stores the element at the loop index
+// under that index, (3) the only test that lets an element skip the update compares that element with a constant and
+// lets every value 1..255 through.
+func (c *Ctx) tyrePressureRule() {
+	R := c.R
+	R.Rules["S.tyre-pressure"] = "item 0x05 (tyre pressures): the decoding loop visits every byte of the item (it is left only at its head), stores byte k under tyre k, and skips exactly the zero bytes"
+	var fn *ssa.Function
+	for _, f := range c.RepoFuncs("protocol/model") {
+		if f.Parent() != nil || f.Signature.Results().Len() != 1 {
+			continue
+		}
+		if n, ok := f.Signature.Results().At(0).Type().(*types.Named); ok && n.Obj().Name() == "AdditionTirePressure" {
+			for _, prm := range f.Params {
+				if sl, isSl := prm.Type().Underlying().(*types.Slice); isSl {
+					if bt, isB := sl.Elem().Underlying().(*types.Basic); isB && bt.Kind() == types.Uint8 {
+						fn = f
+					}
+				}
+			}
+		}
+	}
+	if fn == nil {
+		R.Fatal("anchor: no function of protocol/model builds an AdditionTirePressure from a byte slice")
+		return
+	}
+	name := shortFn(fn)
+	var upd *ssa.MapUpdate
+	nUpd := 0
+	for _, b := range fn.Blocks {
+		for _, ins := range b.Instrs {
+			if u, ok := ins.(*ssa.MapUpdate); ok {
+				upd = u
+				nUpd++
+			}
+		}
+	}
+	if nUpd != 1 {
+		R.Add("S.tyre-pressure", name+" / one store per tyre", c.P.RelPos(fn.Pos()), report.Undecided, fmt.Sprintf("%d map updates (expected one inside the loop over the item)", nUpd))
+		return
+	}
+	var loop map[*ssa.BasicBlock]bool
+	var head *ssa.BasicBlock
+	for _, u := range fn.Blocks {
+		for _, h := range u.Succs {
+			if h.Dominates(u) {
+				for _, l := range naturalLoops(fn) {
+					if l[h] && l[u] && l[upd.Block()] && (loop == nil || len(l) < len(loop)) {
+						loop, head = l, h
+					}
+				}
+			}
+		}
+	}
+	if loop == nil {
+		R.Add("S.tyre-pressure", name+" / loop over the item", c.P.RelPos(fn.Pos()), report.Violated, "the store is not inside a loop")
+		return
+	}
+	// (1) exits
+	st, d := report.Discharged, ""
+	for b := range loop {
+		for _, s := range b.Succs {
+			if !loop[s] && b != head {
+				st, d = report.Violated, "the loop is left at "+c.P.RelPos(b.Instrs[len(b.Instrs)-1].Pos())+" before the end of the item (an early exit): tyres behind that byte are not decoded"
+				if p := b.Instrs[len(b.Instrs)-1].Pos(); !p.IsValid() && len(b.Instrs) > 1 {
+					d = "the loop has an exit other than its head (an early exit on some byte): tyres behind that byte are not decoded"
+				}
+			}
+		}
+	}
+	R.Add("S.tyre-pressure", name+" / the loop ends only at the end of the item", c.P.RelPos(fn.Pos()), st, d)
+	// (2) key = index, value = element at index
+	elemOf := func(v ssa.Value) (*ssa.IndexAddr, bool) {
+		for {
+			switch x := v.(type) {
+			case *ssa.Convert:
+				v = x.X
+				continue
+			case *ssa.ChangeType:
+				v = x.X
+				continue
+			case *ssa.UnOp:
+				ia, ok := x.X.(*ssa.IndexAddr)
+				return ia, ok
+			}
+			return nil, false
+		}
+	}
+	strip := func(v ssa.Value) ssa.Value {
+		for {
+			switch x := v.(type) {
+			case *ssa.Convert:
+				v = x.X
+				continue
+			case *ssa.ChangeType:
+				v = x.X
+				continue
+			}
+			return v
+		}
+	}
+	ia, isEl := elemOf(upd.Value)
+	st, d = report.Discharged, ""
+	if !isEl || strip(ia.Index) != strip(upd.Key) {
+		st, d = report.Violated, "the stored value is not the item's byte at the index it is stored under"
+	} else if ii, isI := strip(ia.Index).(ssa.Instruction); !isI || !loop[ii.Block()] {
+		st, d = report.Violated, "the index is not computed inside the loop (not the loop counter)"
+	}
+	R.Add("S.tyre-pressure", name+" / byte k is stored under tyre k", c.P.RelPos(upd.Pos()), st, d)
+	// (3) the guards between loop head and the update
+	st, d = report.Discharged, ""
+	for b := range loop {
+		iff, isIf := b.Instrs[len(b.Instrs)-1].(*ssa.If)
+		if !isIf || b == head {
+			continue
+		}
+		cmp, isCmp := iff.Cond.(*ssa.BinOp)
+		if !isCmp {
+			st, d = report.Undecided, "a condition inside the loop is not a comparison"
+			continue
+		}
+		x, y := cmp.X, cmp.Y
+		k, isK := constInt(y)
+		left := true
+		if !isK {
+			k, isK = constInt(x)
+			x, left = y, false
+		}
+		ia2, isEl2 := elemOf(x)
+		if !isK || !isEl2 || (isEl && ia2.X != ia.X) {
+			st, d = report.Undecided, "a condition inside the loop does not compare the current byte with a constant ("+c.P.RelPos(iff.Cond.Pos())+")"
+			continue
+		}
+		// which successor reaches the update
+		reach := func(from *ssa.BasicBlock) bool {
+			seen := map[*ssa.BasicBlock]bool{head: true}
+			var w func(z *ssa.BasicBlock) bool
+			w = func(z *ssa.BasicBlock) bool {
+				if z == upd.Block() {
+					return true
+				}
+				if seen[z] || !loop[z] {
+					return false
+				}
+				seen[z] = true
+				for _, s := range z.Succs {
+					if w(s) {
+						return true
+					}
+				}
+				return false
+			}
+			return w(from)
+		}
+		t, e := reach(b.Succs[0]), reach(b.Succs[1])
+		if t == e {
+			continue
+		}
+		for _, v := range []int64{1, 2, 127, 128, 255} {
+			a, bb := v, k
+			if !left {
+				a, bb = k, v
+			}
+			var res bool
+			switch cmp.Op {
+			case token.EQL:
+				res = a == bb
+			case token.NEQ:
+				res = a != bb
+			case token.LSS:
+				res = a < bb
+			case token.LEQ:
+				res = a <= bb
+			case token.GTR:
+				res = a > bb
+			case token.GEQ:
+				res = a >= bb
+			}
+			if res != t {
+				st, d = report.Violated, fmt.Sprintf("a tyre whose byte is %d is not stored (test at %s)", v, c.P.RelPos(iff.Cond.Pos()))
+			}
+		}
+	}
+	R.Add("S.tyre-pressure", name+" / exactly the zero bytes are skipped", c.P.RelPos(fn.Pos()), st, d)
+	R.Require("S.tyre-pressure", 3, "")
 }
